@@ -209,7 +209,7 @@ PROPS["C07"] = {
 }
 
 PROPS["C08"] = {
-    "modules": ["SamlVerif.Props.C08", "SamlVerif.Props.PureSaml", "SamlVerif.Props.PureXmlenc"],
+    "modules": ["SamlVerif.Props.C08", "SamlVerif.Props.TransEncCert", "SamlVerif.Props.PureSaml", "SamlVerif.Props.PureXmlenc"],
     "trusted_base": IDP_TB + SP_TB + ["confidentiality of RSA-OAEP / AES-CBC is not claimed; 'recoverable with no other key' is tested by trying the other keys of the harness",
                                        "draw order from RandReader (responseDraws) is hand-written from identity_provider.go / xmlenc and tied by the counting-reader correspondence"],
     "assumptions": ["RandReader yields independent uniform bytes: disjoint segments of the stream are then independent (freshness is stated as disjointness of segments)"],
@@ -268,6 +268,7 @@ TRANS_TB = ("the Go->Lean translator (extract/trans.go: go/ast + go/types over a
 for pid, fns in {"C01": "parseResponse / parseAssertion / parseEncryptedAssertion",
                  "C02": "validateAssertion / parseResponse", "C03": "validateAssertion / validateAudienceRestriction / parseResponse",
                  "C04": "validateRequestID / validateAssertion / parseResponse", "C05": "IdpAuthnRequest.Validate (from the Destination check on) / getACSEndpoint",
-                 "C18": "validateLogoutResponse"}.items():
+                 "C18": "validateLogoutResponse",
+                 "C08": "IdpAuthnRequest.getSPEncryptionCert (the selection of the certificate string, up to its decoding)"}.items():
     PROPS[pid]["technique"] = TRANS_TECH.format(fns=fns)
     PROPS[pid]["trusted_base"] = list(PROPS[pid].get("trusted_base", [])) + [TRANS_TB]
